@@ -9,7 +9,8 @@ import sys
 from harness import c01x, common, vmpool
 
 REQUIRED = ["flow_sound", "compat_table_sound", "prune_sound", "flow_sound_pytype_rules", "flow_sound_sem",
-            "typeOf_admits", "sub_sound", "collapse_widens", "wider_is_sound"]
+            "typeOf_admits", "sub_sound", "collapse_widens", "wider_is_sound",
+            "merge_only_hides_older", "rebind_keeps_older", "older_visible_before_merge"]
 
 # ----------------------------------------------------------------------------------------------
 # program generator: python-side AST = nested tuples mirroring the Lean `Expr`/`Stmt`
@@ -346,6 +347,36 @@ def known_pool_sources():
 
 
 # --- stages -----------------------------------------------------------------------------------------
+ACC_SETUP = ["node", "connect_new 0", "connect_new 1", "var", "bind 0 int [] 0", "var", "bind 1 str [] 1"]
+ACC_HISTORIES = [
+    # (name, ops, answers the theorems of Props/C01Accumulate.lean state)
+    ("older_visible_before_merge", ACC_SETUP + ["query visible 0 2", "query filter 0 2 1"], ["1", "[0]"]),
+    ("merge_only_hides_older", ACC_SETUP + ["paste_var 0 1 1 []", "query visible 0 2", "query filter 0 2 1",
+                                            "query visible 0 1"], ["0", "[2]", "0"]),
+    ("rebind_keeps_older", ACC_SETUP + ["assign_var 0 1", "paste_var 0 2 1 []", "paste_var 0 1 1 []", "query visible 0 2",
+                                        "query filter 0 2 1", "query visible 0 1"], ["1", "[0,3]", "1"]),
+]
+
+
+def k_accumulate(res):
+  """The typegraph mechanism behind the add-only container operations (Props/C01Accumulate.lean): the two versions of
+  merging a new element type into a type-parameter Variable at a later node, replayed op by op on the real
+  cfg.Program and on the compiled model of it (drv_c08); both must give the answers the theorems state."""
+  from harness import tg  # pylint: disable=g-import-not-at-top
+  cfg = common.load_pytype()
+  drv8 = common.ensure_driver("drv_c08")
+  dis = []
+  for name, h, want in ACC_HISTORIES:
+    ops = [tg.parse_op(t) for t in h]
+    real = tg.Real(cfg).run(ops)
+    model = drv8.batch(tg.driver_lines(ops, None))
+    if real != want or model != want:
+      dis.append({"kind": "accumulate-mechanism", "theorem": name, "ops": h, "theorem_states": want,
+                  "real_cfg_Program": real, "model": model})
+  res.cov["accumulate_mechanism"] = {"histories": len(ACC_HISTORIES), "agree": len(ACC_HISTORIES) - len(dis)}
+  return dis
+
+
 def correspond(res, rng, tier):
   drv = common.ensure_driver("drv_c01")
   nb = 1 if tier == "quick" else 25
@@ -453,6 +484,7 @@ def correspond(res, rng, tier):
                      "and read back with a constant key")
   res.cov["distribution"] = stats
   res.add_samples([program_src(progs[0]), {"pyi": results[0].get("pyi", "")[:400]}])
+  disagreements += k_accumulate(res)
   return disagreements
 
 
